@@ -192,7 +192,7 @@ inline bool CachedInputSplit::InitCachedIter(void) {
           return false;
         }
         CHECK(nread == sizeof(size)) << cache_file_ << " has invalid cache file format";
-        p->data.resize(size / sizeof(size_t) + 1);
+        p->data.resize(size / sizeof(uint32_t) + 1);
         p->begin = reinterpret_cast<char *>(BeginPtr(p->data));
         p->end = p->begin + size;
         CHECK(fi_->Read(p->begin, size) == size) << cache_file_ << " has invalid cache file format";
